@@ -84,3 +84,195 @@ def mon_c04(pid, run):
 MONITORS = {
     "C04": mon_c04,
 }
+
+
+# ------------------------------------------------------------------------- locking monitors
+def _lst(s):
+    return [] if s in ("-", "") else s.split(",")
+
+
+def parse_lock_dump(line):
+    """'=> lock vals=… idx=… …' -> dict"""
+    body = line[3:] if line.startswith("=> ") else line
+    d = {}
+    for tok in body.split(" ")[1:]:
+        if "=" in tok:
+            k, v = tok.split("=", 1)
+            d[k] = v
+    vals = {}
+    for it in _lst(d.get("vals", "-")):
+        f = it.split("|")
+        coins = {}
+        if f[8] != "-":
+            for c in f[8].split("+"):
+                dn, a = c.rsplit("/", 1)
+                coins[dn] = int(a)
+        vals[f[0]] = dict(status=f[1], power=int(f[2]), reward=int(f[3]), gas=int(f[4]), offset=int(f[5]), missed=int(f[6]),
+                          jailed=int(f[7]), coins=coins, pubkey=f[9])
+    d["_vals"] = vals
+    d["_rank"] = [(int(x.split("|")[0]), x.split("|")[1]) for x in _lst(d.get("rank", "-"))]
+    d["_set"] = {x.split("|")[0]: int(x.split("|")[1]) for x in _lst(d.get("set", "-"))}
+    d["_slashed"] = {x.split("|")[0]: int(x.split("|")[1]) for x in _lst(d.get("slashed", "-"))}
+    p = d.get("pool", "0|0|0").split("|")
+    d["_pool"] = tuple(int(x) for x in p)
+    d["_qrew"] = [x.split("|") for x in _lst(d.get("qrew", "-"))]
+    d["_qunl"] = [x.split("|") for x in _lst(d.get("qunl", "-"))]
+    uq = []
+    for e in _lst(d.get("uq", "-")):
+        t, us = e.split("|", 1)
+        for u in ([] if us == "-" else us.split("+")):
+            uq.append((int(t), u.split("/")))
+    d["_uq"] = uq
+    return d
+
+
+def denom_of(tokhex):
+    t = tokhex.lower().rjust(40, "0")[-40:]
+    if t == "0" * 40:
+        return "btc"
+    if t == "bc10000000000000000000000000000000000001":
+        return "goat"
+    return "tkn:" + t
+
+
+class LockLedger:
+    """What an observer of the trace can add up independently of any model: requests that were
+    applied (ok), what was delivered to the execution layer, block times."""
+
+    def __init__(self):
+        self.locked = {}       # denom -> total of applied lock requests
+        self.delivered_unl = {}  # denom -> delivered unlock amounts
+        self.delivered_ids = []
+        self.claimed = 0
+        self.grants = 0
+        self.gasrev = 0
+        self.remain0 = 0
+        self.unlock_req_time = {}
+        self.params = {}
+        self.now = 0
+        self.maxvals = None
+
+    def feed(self, op, impl):
+        a = kv(op)
+        kind = op.split(" ")[1]
+        ok = crit(impl).startswith("ok")
+        if kind == "init.lock":
+            self.remain0 = int(a["remain"])
+            self.params = {k: int(a[k]) for k in ("unlock", "exit", "jail", "window", "maxmissed", "maxvals")}
+        if "time" in a:
+            self.now = max(self.now, int(a["time"]))
+        if kind == "req.lock" and ok:
+            for it in _lst(a.get("locks", "-")):
+                f = it.split("|")
+                dn = denom_of(f[1])
+                self.locked[dn] = self.locked.get(dn, 0) + int(f[2])
+            for g in _lst(a.get("grants", "-")):
+                self.grants += int(g)
+            for g in _lst(a.get("gas", "-")):
+                if int(g) > 0:
+                    self.gasrev += int(g)
+            for it in _lst(a.get("unlocks", "-")):
+                f = it.split("|")
+                self.unlock_req_time[f[0]] = int(a["time"])
+        if kind == "lock.dequeue" and ok and a.get("commit") == "1":
+            m = re.search(r"txs=(\S+)", impl)
+            for t in _lst(m.group(1) if m else "-"):
+                f = t.split("|")
+                if f[0] == "rew":
+                    self.claimed += int(f[4]) + int(f[5])
+                elif f[0] == "unl":
+                    dn = denom_of(f[4])
+                    self.delivered_unl[dn] = self.delivered_unl.get(dn, 0) + int(f[5])
+                    self.delivered_ids.append(f[2])
+
+
+def mon_locking(pid, run):
+    """C11–C15 evaluated on the implementation's own observations (dumps, hook results, delivered txs)."""
+    hits = []
+    led = LockLedger()
+    for i, (op, impl) in enumerate(zip(run.ops, run.impl)):
+        kind = op.split(" ")[1]
+        if kind == "reset":
+            led = LockLedger()
+            continue
+        led.feed(op, impl)
+        c = crit(impl)
+        if pid == "C13" and kind in ("hook.lock.begin", "hook.lock.end", "hook.rel.end") and not c.startswith("ok"):
+            # a begin block without any vote info is an artefact of a harness history that emptied the set
+            if not (kind == "hook.lock.begin" and "zero-power" in impl):
+                hits.append((i, "block hook failed: %s" % impl[:120]))
+        if pid == "C13" and kind == "hook.lock.end" and "comet=" in impl and "comet=ok" not in impl:
+            hits.append((i, "validator update list refused by CometBFT: %s" % impl[-60:]))
+        if kind != "dump.lock" or not impl.startswith("=> lock "):
+            continue
+        d = parse_lock_dump(impl)
+        V = d["_vals"]
+        if pid == "C11":
+            denoms = set(led.locked) | set(d["_slashed"]) | set(led.delivered_unl)
+            for v in V.values():
+                denoms |= set(v["coins"])
+            for dn in sorted(denoms):
+                held = sum(v["coins"].get(dn, 0) for v in V.values())
+                queued = sum(int(u[3]) for (_, u) in d["_uq"] if denom_of(u[1]) == dn) + sum(int(u[3]) for u in d["_qunl"] if denom_of(u[1]) == dn)
+                total = held + d["_slashed"].get(dn, 0) + queued + led.delivered_unl.get(dn, 0)
+                if total != led.locked.get(dn, 0):
+                    hits.append((i, "conservation broken for %s: locked %d != held %d + slashed %d + queued %d + delivered %d" % (
+                        dn, led.locked.get(dn, 0), held, d["_slashed"].get(dn, 0), queued, led.delivered_unl.get(dn, 0))))
+            for a, v in V.items():
+                for dn, x in v["coins"].items():
+                    if x < 0:
+                        hits.append((i, "negative holding %s %s" % (a, dn)))
+            for dn, x in d["_slashed"].items():
+                if x < 0:
+                    hits.append((i, "negative slashed %s" % dn))
+        if pid == "C12":
+            goat, gas, remain = d["_pool"]
+            if goat < 0 or gas < 0 or remain < 0:
+                hits.append((i, "negative reward pool goat=%d gas=%d remain=%d" % (goat, gas, remain)))
+            acc = sum(v["reward"] + v["gas"] for v in V.values())
+            if any(v["reward"] < 0 or v["gas"] < 0 for v in V.values()):
+                hits.append((i, "negative accrued reward"))
+            queued = sum(int(r[2]) + int(r[3]) for r in d["_qrew"])
+            lhs = led.remain0 + led.grants + led.gasrev
+            rhs = goat + gas + remain + acc + queued + led.claimed
+            if lhs != rhs:
+                hits.append((i, "reward conservation broken: granted+gas %d != pools+accrued+claimed %d" % (lhs, rhs)))
+        if pid == "C13":
+            S = d["_set"]
+            mv = led.params.get("maxvals", 1 << 30)
+            if len(S) > mv:
+                hits.append((i, "recorded set larger than MaxValidators"))
+            for a, p in S.items():
+                v = V.get(a)
+                if v is None or v["status"] != "active" or v["power"] != p or p <= 0:
+                    hits.append((i, "set member %s not active with its current positive power (set %d, validator %s)" % (a, p, v and (v["status"], v["power"]))))
+            rank = sorted(d["_rank"], key=lambda e: (e[0], bytes.fromhex(e[1])), reverse=True)
+            top = [a for (_, a) in rank[:mv]]
+            if sorted(top) != sorted(S.keys()):
+                hits.append((i, "recorded set is not the top-%d of the ranking: set=%s top=%s" % (mv, sorted(S.keys()), sorted(top))))
+            for p, a in d["_rank"]:
+                v = V.get(a)
+                if v is None or v["status"] not in ("pending", "active") or v["power"] != p or p <= 0:
+                    hits.append((i, "ranking entry (%d,%s) does not match an eligible validator with that positive power: %s" % (p, a, v and (v["status"], v["power"]))))
+        if pid == "C14":
+            ranked = {a for (_, a) in d["_rank"]}
+            for a, v in V.items():
+                if v["status"] in ("tombstoned", "downgrade", "inactive") and (v["power"] != 0 or a in ranked or a in d["_set"] and v["status"] == "tombstoned"):
+                    if v["power"] != 0 or a in ranked:
+                        hits.append((i, "%s validator %s has power %d / ranked=%s" % (v["status"], a, v["power"], a in ranked)))
+        if pid == "C15":
+            for u in d["_qunl"]:
+                t0 = led.unlock_req_time.get(u[0])
+                if t0 is not None and led.now < t0 + led.params.get("unlock", 0):
+                    hits.append((i, "unlock %s released before the unlock period" % u[0]))
+            if len(set(led.delivered_ids)) != len(led.delivered_ids):
+                hits.append((i, "an unlock was delivered twice"))
+            for t, u in d["_uq"]:
+                t0 = led.unlock_req_time.get(u[0])
+                if t0 is not None and t < t0 + led.params.get("unlock", 0):
+                    hits.append((i, "unlock %s queued with maturity before request time + unlock period" % u[0]))
+    return hits[:20]
+
+
+for _p in ("C11", "C12", "C13", "C14", "C15"):
+    MONITORS[_p] = mon_locking
